@@ -17,10 +17,19 @@ echo "demo_with=$W demo_without=$WO"
 mkdir -p /verif/seeded/$NAME
 cp /tmp/seed_$NAME.patch /verif/seeded/$NAME/patch.diff; cp $OUT/demo.py /verif/seeded/$NAME/demo.py
 cp $OUT/meta.json /verif/seeded/$NAME/agent_meta.json 2>/dev/null
-echo "== check $P against the patch in /repo"
-cd /repo && git apply /verif/seeded/$NAME/patch.diff || { echo "patch does not apply to /repo"; exit 1; }
-cd /verif && ./check $P > /tmp/seed_$NAME.check 2>&1; RC=$?
-git -C /repo checkout -- .
+if [ -n "${SEED_VIA_WT:-}" ]; then
+  # other work is reading /repo right now: run the check against the scratch worktree (which carries the patch) instead
+  echo "== check $P against the patched worktree $WT (VERIF_REPO)"
+  git -C /repo apply --check /verif/seeded/$NAME/patch.diff || { echo "patch does not apply to /repo"; exit 1; }
+  cd /verif && VERIF_REPO=$WT ./check $P > /tmp/seed_$NAME.check 2>&1; RC=$?
+  HOW="./check $P with VERIF_REPO=<scratch worktree carrying the patch> (patch verified to apply to /repo with git apply --check)"
+else
+  echo "== check $P against the patch in /repo"
+  cd /repo && git apply /verif/seeded/$NAME/patch.diff || { echo "patch does not apply to /repo"; exit 1; }
+  cd /verif && ./check $P > /tmp/seed_$NAME.check 2>&1; RC=$?
+  git -C /repo checkout -- .
+  HOW="./check $P on /repo with the patch applied, then git checkout"
+fi
 grep -c VIOLATION /tmp/seed_$NAME.check; tail -2 /tmp/seed_$NAME.check
 echo "check_rc=$RC"
 /venv/bin/python - <<PY
@@ -28,7 +37,7 @@ import json
 m={"property":"$P","seed":"$NAME","demo_exit_with_patch":$W,"demo_exit_without_patch":$WO,
    "tests_with_patch":open("/tmp/seed_$NAME.tests").read().strip(),"check_exit_on_patched_repo":$RC,
    "check_tail":open("/tmp/seed_$NAME.check").read()[-600:],
-   "ran":["demo.py in scratch worktree with and without the patch","full pytest suite in the worktree with the patch","./check $P on /repo with the patch applied, then git checkout"]}
+   "ran":["demo.py in scratch worktree with and without the patch","full pytest suite in the worktree with the patch","$HOW"]}
 try:
     a=json.load(open("/verif/seeded/$NAME/agent_meta.json")); m["summary"]=a.get("summary"); m["needs"]=a.get("needs"); m["files"]=a.get("files")
 except Exception: pass
